@@ -526,6 +526,27 @@ func ruleTrimAmount(c *Ctx) {
 				return
 			}
 			n++
+			// only context is trimmed: the edit whose span is cut is known to be an Emit edit here ('=' is the
+			// opcode of slice.OpEmit, read from the constant's value)
+			{
+				isEmit := false
+				for _, cm := range cmpsAt(st.Block()) {
+					if cm.Op != token.EQL {
+						continue
+					}
+					for _, pr := range [][2]ssa.Value{{cm.X, cm.Y}, {cm.Y, cm.X}} {
+						k, isK := constInt(pr[1])
+						if !isK || k != '=' {
+							continue
+						}
+						if base, opf := loadedField(pr[0]); opf != nil && opf.Name() == "Op" && sym(base) == sym(fa.X) {
+							isEmit = true
+						}
+					}
+				}
+				c.sawFn(fnName(f))
+				c.judge(isEmit, "R-TRIM-AMOUNT", fmt.Sprintf("%s:span cut #%d is context", fnName(f), n), st.Pos(), "the trimmed edit is known to be OpEmit", "a span is trimmed on a path where its edit is not known to be an Emit (context) edit: lines that the diff deletes, inserts or replaces are cut away, and the chunk no longer describes the change")
+			}
 			var as []string
 			for a := range adj {
 				as = append(as, a)
@@ -1341,4 +1362,74 @@ func (m *streeModel) nodeDelegate(v ssa.Value) *ssa.Function {
 		return nil
 	}
 	return h
+}
+
+// ruleChunkLoopComplete (R-CHUNKS-ALL): the functions of package mdiff that transform a list of chunks by ranging
+// over it handle every chunk: such a loop is left only when the range is exhausted (or by a panic).  A break — or
+// a return — in its body drops the chunks that follow.
+func ruleChunkLoopComplete(c *Ctx) {
+	c.rule("R-CHUNKS-ALL", 0, "a range loop over a slice of chunks in package mdiff is left only by exhaustion (or a panic)")
+	chunkT := c.P.Named("mdiff", "Chunk")
+	if chunkT == nil {
+		return
+	}
+	isChunkSlice := func(t types.Type) bool {
+		sl, ok := t.Underlying().(*types.Slice)
+		return ok && isNamedOrigin(sl.Elem(), chunkT)
+	}
+	for _, fn := range c.P.PkgFuncs("mdiff") {
+		fn := fn
+		k := 0
+		for _, h := range fn.Blocks {
+			// a range-over-slice header: φ rangeindex, next = φ+1, next < len(x)
+			var ph *ssa.Phi
+			for _, in := range h.Instrs {
+				if p, ok := in.(*ssa.Phi); ok && p.Comment == "rangeindex" {
+					ph = p
+				}
+			}
+			if ph == nil {
+				continue
+			}
+			iff, ok := h.Instrs[len(h.Instrs)-1].(*ssa.If)
+			if !ok {
+				continue
+			}
+			bo, ok := iff.Cond.(*ssa.BinOp)
+			if !ok {
+				continue
+			}
+			ln, ok := isBuiltinCall(bo.Y, "len")
+			if !ok || !isChunkSlice(ln.Call.Args[0].Type()) {
+				continue
+			}
+			lb := loopBlocks(h)
+			var early ssa.Instruction
+			for b := range lb {
+				if b == h {
+					continue
+				}
+				for _, sc := range b.Succs {
+					if lb[sc] {
+						continue
+					}
+					if _, isPanic := sc.Instrs[len(sc.Instrs)-1].(*ssa.Panic); isPanic {
+						continue
+					}
+					early = b.Instrs[len(b.Instrs)-1]
+				}
+				if _, isRet := b.Instrs[len(b.Instrs)-1].(*ssa.Return); isRet {
+					early = b.Instrs[len(b.Instrs)-1]
+				}
+			}
+			k++
+			c.sawFn(fnName(fn))
+			pos := fn.Pos()
+			why := ""
+			if early != nil {
+				why = "the loop over the chunks can be left at " + c.P.pos(instrPos(early)) + " before the list is exhausted: the chunks that follow are neither kept nor merged"
+			}
+			c.judge(early == nil, "R-CHUNKS-ALL", fmt.Sprintf("%s:chunk loop #%d", fnName(fn), k), pos, "left only when the range is exhausted", why)
+		}
+	}
 }
